@@ -1,11 +1,12 @@
 """C17 — decided by engine K (Kani/CBMC harnesses over the real EVM interpreter sources, /verif/kani); see DESIGN.md."""
 PROPERTY = 'C17'
-CRATES = []
-ENGINES = ['K']
-CHECKER_CMD = ('cargo kani (Kani 0.68.0, CBMC 6.11.0, cadical) on the harness crate /verif/kani, which #[path]-includes the real sources of /repo; '
+CRATES = ['fil_actors_runtime', 'fil_actors_evm_shared', 'fil_actor_evm']
+ENGINES = ['M', 'K']
+CHECKER_CMD_K = ('cargo kani (Kani 0.68.0, CBMC 6.11.0, cadical) on the harness crate /verif/kani, which #[path]-includes the real sources of /repo; '
                'unwinding assertions on; vacuity guarded by kani::cover! witnesses')
-TRUSTED = ['rustc + Kani codegen', 'CBMC', 'the byte-wise / limb-wise reference oracles inside the harnesses (written from the Yellow Paper, EIP-145, EIP-3855)']
+TRUSTED_K = ['rustc + Kani codegen', 'CBMC', 'the byte-wise / limb-wise reference oracles inside the harnesses (written from the Yellow Paper, EIP-145, EIP-3855)']
 
 
 def build(tier):
-    return []
+    from . import evm_guards
+    return evm_guards.build_store_load(tier)
